@@ -33,6 +33,13 @@ class _ObjClasses(dict):
             self["Tag"] = (T.Tag, ["_interpreter", "_abi", "_platform", "_hash"])
             from packaging import specifiers as SP
             self["Specifier"] = (SP.Specifier, ["_spec", "_prereleases"])
+            # --- x3
+            from packaging import _parser as PA, markers as MK
+            for n in ("Variable", "Value", "Op"):
+                self[n] = (getattr(PA, n), ["value"])
+            self["Marker"] = (MK.Marker, ["_markers"])
+            self["version_info"] = (version_info, ["major", "minor", "micro", "releaselevel", "serial"])
+            self["raise"] = (Raise, ["cls"])
 
     def __contains__(self, k):
         self._load()
@@ -61,6 +68,8 @@ def enc_val(v) -> str:
         return "s" + core.enc(v)
     if isinstance(v, Env):
         return "L[" + ",".join("U[" + enc_val(k) + "," + enc_val(x) + "]" for k, x in v) + "]"
+    if isinstance(v, dict):                                                    # x3
+        return "D[" + ",".join("U[" + enc_val(k) + "," + enc_val(x) + "]" for k, x in v.items()) + "]"
     if isinstance(v, list):
         return "L[" + ",".join(enc_val(x) for x in v) + "]"
     tn = type(v).__name__
@@ -100,7 +109,7 @@ class _P:
             tok = s[self.i:j]
             self.i = j
             return int(tok) if c == "i" else core.dec(tok)
-        if c in "LUI":
+        if c in "LUID":
             assert s[self.i] == "["
             self.i += 1
             out = []
@@ -110,6 +119,8 @@ class _P:
                     continue
                 out.append(self.val())
             self.i += 1
+            if c == "D":
+                return {k: v for k, v in out}
             return out if c == "L" else tuple(out) if c == "U" else iter(out)
         if c in "mp":
             from packaging import _structures
@@ -454,6 +465,263 @@ def _g_spec_filter(rng):
     return [sp, items, rng.choice([None, None, None, True, False])]
 
 
+# ------------------------------------------------------------------------------------------------ x3: markers
+class version_info:
+    """stand-in for `sys.implementation.version` (attribute access only)"""
+
+
+class Raise:
+    """result of an oracle call that raised: travels as `Oraise{cls=s…}`"""
+    def __init__(self, cls):
+        self.cls = cls
+
+
+Raise.__name__ = "raise"
+
+
+class Oracle(list):
+    """first argument of a translated function that calls functions modelled elsewhere: [(name, args, result), …]"""
+
+
+def _record(module_name, names, fn, args):
+    """run the real `fn(*args)` with the oracle functions of the module wrapped so that every call is recorded"""
+    import copy
+    import inspect
+    mod = importlib.import_module(module_name)
+    rec = Oracle()
+    saved = {}
+
+    def wrap_function(name, real):
+        sig = inspect.signature(real)
+
+        def w(*a, **k):
+            b = sig.bind(*a, **k)
+            b.apply_defaults()
+            key = tuple(copy.deepcopy(list(b.arguments.values())))
+            try:
+                r = real(*a, **k)
+            except Exception as e:
+                rec.append((name, key, Raise(type(e).__name__)))
+                raise
+            rec.append((name, key, copy.deepcopy(r)))
+            return r
+        return w
+
+    def wrap_class(name, real, methods):
+        ns = {}
+        isig = inspect.signature(real.__init__)
+
+        def __init__(self, *a, **k):
+            b = isig.bind(self, *a, **k)
+            b.apply_defaults()
+            key = tuple(list(b.arguments.values())[1:])
+            try:
+                real.__init__(self, *a, **k)
+            except Exception as e:
+                rec.append((name, key, Raise(type(e).__name__)))
+                raise
+            rec.append((name, key, copy.copy(self)))
+        ns["__init__"] = __init__
+        for m in methods:
+            rm = getattr(real, m)
+            msig = inspect.signature(rm)
+
+            def meth(self, *a, _rm=rm, _msig=msig, _m=m, **k):
+                b = _msig.bind(self, *a, **k)
+                b.apply_defaults()
+                key = tuple([copy.copy(self)] + list(b.arguments.values())[1:])
+                try:
+                    r = _rm(self, *a, **k)
+                except Exception as e:
+                    rec.append((f"{name}.{_m}", key, Raise(type(e).__name__)))
+                    raise
+                rec.append((f"{name}.{_m}", key, r))
+                return r
+            ns[m] = meth
+        return type(name, (real,), ns)
+
+    classes = {}
+    for n in names:
+        if "." in n:
+            classes.setdefault(n.split(".")[0], []).append(n.split(".")[1])
+    for n in names:
+        if "." in n:
+            continue
+        real = getattr(mod, n)
+        saved[n] = real
+        setattr(mod, n, wrap_class(n, real, classes.get(n, [])) if isinstance(real, type) else wrap_function(n, real))
+    try:
+        try:
+            fn(*copy.deepcopy(args))
+        except Exception:
+            pass
+    finally:
+        for n, v in saved.items():
+            setattr(mod, n, v)
+    out = Oracle()
+    seen = set()
+    for e in rec:
+        k = enc_val(e[0]) + enc_val(e[1])
+        if k not in seen:
+            seen.add(k)
+            out.append(e)
+    return out
+
+
+MARKER_ORACLES = ["canonicalize_name", "Specifier", "Specifier.contains", "default_environment"]
+
+
+def _with_oracle(name, args, call=None):
+    mod, path, _ = FUNCS[name]
+    f = _resolve(mod, path)
+    return [_record(mod, MARKER_ORACLES, call or f, args)] + args
+
+
+def _marker_text(rng, depth=None):
+    from gen import markers as G
+    while True:
+        try:
+            pool = G.make_pool(rng)
+            tree = G.formula(rng, pool, depth=depth if depth is not None else rng.choice([0, 0, 1, 1, 2, 3, 4]), p_odd=0.08)
+            return pool, tree, G.render(tree, rng, extra_paren=rng.choice([0.1, 0.3, 0.6]), respell_extra=rng.random() < 0.5)
+        except G.OutOfDomain:
+            continue
+
+
+def _parsed(rng):
+    from packaging import _parser as PA
+    while True:
+        pool, tree, s = _marker_text(rng)
+        try:
+            return pool, tree, PA.parse_marker(s)
+        except Exception:
+            continue
+
+
+def _g_normalize_extra_values(rng):
+    return _with_oracle("_normalize_extra_values", [_parsed(rng)[2]])
+
+
+def _g_format_marker(rng):
+    from packaging import markers as MK
+    m = _parsed(rng)[2]
+    if rng.random() < 0.5:
+        m = MK._normalize_extra_values(m)
+    r = rng.random()
+    if r < 0.15:
+        m = rng.choice(m)                       # a tuple, a str or a nested list
+    elif r < 0.25:
+        m = [m]
+    elif r < 0.3:
+        m = rng.choice([[], [[]], ["and"], [[["or"]]]])
+    return [m, rng.choice([True, True, False, None])]
+
+
+def _g_eval_op(rng):
+    from packaging import _parser as PA
+    from gen import markers as G
+    pool = G.make_pool(rng)
+    op = rng.choice(G.OPS + ["~=", "===", "<", ">=", "foo", ""])
+    lhs, rhs = G.literal(rng, pool), G.literal(rng, pool)
+    if rng.random() < 0.3:
+        rhs = lhs
+    return _with_oracle("_eval_op", [lhs, PA.Op(op), rhs])
+
+
+def _g_normalize(rng):
+    from gen import markers as G
+    pool = G.make_pool(rng) + ["Foo_Bar", "foo-bar", "FOO.BAR", "a__b"]
+    vals = tuple(rng.choice(pool) for _ in range(rng.choice([2, 2, 2, 0, 1, 3])))
+    f = _resolve(*FUNCS["_normalize"][:2])
+    key = rng.choice(["extra", "extra", "os_name", "Extra", ""])
+    return _with_oracle("_normalize", [vals, key], call=lambda v, k: f(*v, key=k))
+
+
+def _g_get_env(rng):
+    from gen import markers as G
+    env = G.environment(rng, G.make_pool(rng)) or {}
+    return [env, rng.choice(G.VARS + ["foo", "", "Extra"])]
+
+
+def _full_env(rng, pool):
+    from gen import markers as G
+    from gen import marker_real as R
+    env = dict(R.default_env())
+    env["extra"] = ""
+    sup = G.environment(rng, pool) or {}
+    env.update({k: v for k, v in sup.items() if v is not None})
+    if rng.random() < 0.1:
+        env.pop(rng.choice(sorted(env)))
+    return env
+
+
+def _g_evaluate_markers(rng):
+    from packaging import markers as MK
+    pool, tree, m = _parsed(rng)
+    m = MK._normalize_extra_values(m)
+    if rng.random() < 0.04:
+        m = rng.choice([[], ["and"], m + ["xor"], [m, "or", []]])
+    return _with_oracle("_evaluate_markers", [m, _full_env(rng, pool)])
+
+
+def _g_format_full_version(rng):
+    v = version_info()
+    v.major, v.minor, v.micro = rng.choice([3, 7, 0, 12]), rng.choice([0, 9, 13, 100]), rng.choice([0, 1, 17])
+    v.releaselevel = rng.choice(["final", "final", "alpha", "beta", "candidate", "", "f"])
+    v.serial = rng.choice([0, 1, 2, 15])
+    return [v]
+
+
+def _g_repair(rng):
+    from gen import markers as G
+    env = _full_env(rng, G.make_pool(rng))
+    if rng.random() < 0.4:
+        env["python_full_version"] = rng.choice(["3.12.0+", "+", "3.9.1", "", "3.13.0a1+", "++"])
+    return [env]
+
+
+def _marker_obj(rng):
+    from packaging import markers as MK
+    while True:
+        pool, tree, s = _marker_text(rng)
+        try:
+            return pool, MK.Marker(s)
+        except Exception:
+            continue
+
+
+def _g_marker_self(rng):
+    return [_marker_obj(rng)[1]]
+
+
+def _g_marker_eq(rng):
+    from packaging import markers as MK
+    from gen import markers as G
+    pool, tree, s = _marker_text(rng)
+    try:
+        a = MK.Marker(s)
+    except Exception:
+        return _g_marker_eq(rng)
+    r = rng.random()
+    if r < 0.5:
+        try:
+            b = MK.Marker(G.render(tree, rng, respell_extra=True))
+        except Exception:
+            b = a
+    elif r < 0.9:
+        b = _marker_obj(rng)[1]
+    else:
+        b = rng.choice([None, 1, str(a), [str(a)]])
+    return [a, b]
+
+
+def _g_marker_evaluate(rng):
+    from gen import markers as G
+    pool, m = _marker_obj(rng)
+    env = G.environment(rng, pool)
+    return _with_oracle("Marker.evaluate", [m, env])
+
+
 # lean name -> (module, attribute path, argument generator)
 FUNCS = {
     "_parse_letter_version": ("packaging.version", "_parse_letter_version", _g_parse_letter_version),
@@ -501,6 +769,25 @@ FUNCS = {
     "Specifier.contains": ("packaging.specifiers", "Specifier.contains", _g_spec_contains),
     "Specifier.filter": ("packaging.specifiers", "Specifier.filter", _g_spec_filter),
 }
+# --- x3
+FUNCS.update({
+    "_normalize_extra_values": ("packaging.markers", "_normalize_extra_values", _g_normalize_extra_values),
+    "_format_marker": ("packaging.markers", "_format_marker", _g_format_marker),
+    "_eval_op": ("packaging.markers", "_eval_op", _g_eval_op),
+    "_normalize": ("packaging.markers", "_normalize", _g_normalize),
+    "_get_env": ("packaging.markers", "_get_env", _g_get_env),
+    "_evaluate_markers": ("packaging.markers", "_evaluate_markers", _g_evaluate_markers),
+    "format_full_version": ("packaging.markers", "format_full_version", _g_format_full_version),
+    "_repair_python_full_version": ("packaging.markers", "_repair_python_full_version", _g_repair),
+    "Marker.__str__": ("packaging.markers", "Marker.__str__", _g_marker_self),
+    "Marker.__eq__": ("packaging.markers", "Marker.__eq__", _g_marker_eq),
+    "Marker.__hash__": ("packaging.markers", "Marker.__hash__", _g_marker_self),
+    "Marker.evaluate": ("packaging.markers", "Marker.evaluate", _g_marker_evaluate),
+})
+# functions whose first wire argument is the oracle table (the real function runs against the real callees)
+EXT_FUNCS = {"_normalize_extra_values", "_eval_op", "_normalize", "_evaluate_markers", "Marker.evaluate"}
+# functions run with `hash` replaced by a symbolic stand-in in their module (see PyRt.hash_sym)
+SYM_HASH_FUNCS = {"Marker.__hash__": "packaging.markers"}
 
 
 ENV_FUNCS = {"compatible_tags", "cpython_tags", "_cpython_abis", "_get_config_var"}
@@ -527,10 +814,23 @@ class _Src:
         if name in ENV_FUNCS:
             env = vals.pop(0)
             undo = _apply_env([(k, (list(v) if k == "platform_tags" else v)) for k, v in env])
+        if name in EXT_FUNCS:
+            vals.pop(0)                        # x3: the oracle table is for the translated side only
+        if name in SYM_HASH_FUNCS:
+            m_ = importlib.import_module(SYM_HASH_FUNCS[name])
+            m_.hash = lambda v: ("__hash__", v)
+
+            def undo(m_=m_):
+                del m_.hash
         try:
             import inspect
             params = list(inspect.signature(f).parameters.values())
-            pos = [v for p_, v in zip(params, vals) if p_.kind != p_.KEYWORD_ONLY]
+            pos = []
+            for p_, v in zip(params, vals):
+                if p_.kind == p_.VAR_POSITIONAL:
+                    pos.extend(v)               # x3: `*values` travels as one tuple
+                elif p_.kind != p_.KEYWORD_ONLY:
+                    pos.append(v)
             kw = {p_.name: v for p_, v in zip(params, vals) if p_.kind == p_.KEYWORD_ONLY}
             r = f(*pos, **kw)
             return "ok " + enc_val(r)          # a generator's body runs here, inside the try
